@@ -18,7 +18,7 @@ func propC17() Property {
 		Explanation: "Ordering rules on every path of the persistent stores' write operations. R1: the file store increments the outbound counter only after SaveMessage returned nil. " +
 			"R2: file SaveMessage returns nil only after the message bytes AND the header (index) line were written with their errors checked, the bytes BEFORE the index line (a process death in between must leave unreferenced bytes, not an index entry without bytes), and — when syncing is enabled — after both files were synced, the body file before the header file. " +
 			"R3: counter files are rewritten by seek-to-start → write → (sync), errors checked, with a zero-padded fixed-width format of at least 19 digits so that a shorter number never leaves stale trailing digits. " +
-			"R4: SQL save-and-increment runs both statements on one transaction, commits only when both succeeded, leaves through Commit or Rollback on every exit after Begin, and updates the cache only after Commit returned nil. R5: no store I/O error is dropped (shared with C16-R7). R6: the file store's loader never turns a read or parse failure of a counter/session file's content into an error of the open — those files are created empty before their first write and a rewrite can be cut short, and reopening must succeed with the default value.",
+			"R4: SQL save-and-increment runs both statements on one transaction, commits only when both succeeded, leaves through Commit or Rollback on every exit after Begin, and updates the cache only after Commit returned nil. R5: no store I/O error is dropped (shared with C16-R7). R6: the file store's loader never turns a read or parse failure of a counter/session file's content into an error of the open — those files are created empty before their first write and a rewrite can be cut short, and reopening must succeed with the default value. R7: the session persists an outgoing message only through the store's save-and-increment, never through a separate SaveMessage and increment (a transactional store can only make the pair atomic when it is asked for the pair).",
 		NotDecided: "torn writes inside one write call, what the filesystem persists across power loss beyond the sync order, recovery after reopen as a behaviour over crash points.",
 		Rules: []RuleDef{
 			{ID: "C17-R1", Desc: "file: save before increment", Min: 1, Run: c17R1},
@@ -27,6 +27,7 @@ func propC17() Property {
 			{ID: "C17-R4", Desc: "sql save-and-increment is one transaction; cache after commit", Min: 4, Run: c17R4},
 			{ID: "C17-R5", Desc: "no store I/O error dropped", Min: 20, Run: c16R7},
 			{ID: "C17-R6", Desc: "file store: the loader tolerates empty / torn counter and session files", Min: 1, Run: c17R6},
+			{ID: "C17-R7", Desc: "the session persists only through the store's save-and-increment", Min: 1, Run: c17R7},
 		},
 	}
 }
@@ -170,7 +171,9 @@ func c17R2(c *Ctx) {
 		})
 		return best
 	}
-	fSync := func(a *Atom) bool { return a.Rel == "" && a.Val && a.B.Kind == "field" && strings.Contains(strings.ToLower(cn(a.B.Field)), "sync") }
+	fSync := func(a *Atom) bool {
+		return a.Rel == "" && a.Val && a.B.Kind == "field" && strings.Contains(strings.ToLower(cn(a.B.Field)), "sync")
+	}
 	nNil := 0
 	okAll := true
 	report := func(construct, msg string) {
@@ -379,7 +382,9 @@ func c17R3(c *Ctx) {
 			}
 			// sync under the sync flag, and the nil return after it requires sync nil
 			d := p.ReachCond(instrs[2].Block())
-			if !d.Implies(func(a *Atom) bool { return a.Rel == "" && a.Val && a.B.Kind == "field" && strings.Contains(strings.ToLower(cn(a.B.Field)), "sync") }) {
+			if !d.Implies(func(a *Atom) bool {
+				return a.Rel == "" && a.Val && a.B.Kind == "field" && strings.Contains(strings.ToLower(cn(a.B.Field)), "sync")
+			}) {
 				okOrder = false
 			}
 		}
@@ -514,7 +519,9 @@ func allExitsPass(p *Prog, fn *ssa.Function, begin, commit ssa.CallInstruction) 
 		}
 		if after && !closed {
 			// the Begin-error exit is fine
-			if !p.PathCond(pa).Implies(func(a *Atom) bool { return a.Rel == "!=" && a.R.IsNil() && a.L.Kind == "call" && a.L.CallI == begin.(ssa.Instruction) }) {
+			if !p.PathCond(pa).Implies(func(a *Atom) bool {
+				return a.Rel == "!=" && a.R.IsNil() && a.L.Kind == "call" && a.L.CallI == begin.(ssa.Instruction)
+			}) {
 				ok = false
 			}
 		}
